@@ -7,7 +7,7 @@ use std::rc::Rc;
 
 use serde::{Deserialize, Serialize};
 
-use crate::cfg::AvailableValueMap;
+use crate::cfg::{AvailableValueMap, MathOp};
 use crate::parser::{
     CsrImm, HasRegisterSets, InstructionProperties, LabelString, LabelStringToken,
     RegisterProperties,
@@ -341,13 +341,20 @@ fn rule_perform_math_ops(
             (
                 Some(AvailableValue::OriginalRegisterWithScalar(new_reg, x)),
                 Some(AvailableValue::Constant(y)),
-            )
-            | (
+            ) => node
+                .inst()
+                .scalar_op()
+                .map(|op| op.operate(x, y))
+                .map(|z| AvailableValue::OriginalRegisterWithScalar(new_reg, z)),
+            // With the constant on the left only an addition keeps the form
+            // "register + scalar": `x - (reg + y)` is not `reg + (x - y)`.
+            (
                 Some(AvailableValue::Constant(x)),
                 Some(AvailableValue::OriginalRegisterWithScalar(new_reg, y)),
             ) => node
                 .inst()
                 .scalar_op()
+                .filter(|op| matches!(op, MathOp::Add))
                 .map(|op| op.operate(x, y))
                 .map(|z| AvailableValue::OriginalRegisterWithScalar(new_reg, z)),
             (_, _) => None,
